@@ -91,7 +91,8 @@ func grantedScopes(b bounds) []string {
 }
 
 // The dimensions of the refresh step. In the quick tier one dimension at a time is free and the others
-// keep their permissive value (sum of the dimensions); the thorough tier frees all of them at once (product).
+// keep their permissive value (sum of the dimensions); the thorough tier frees every pair of dimensions at
+// once (pairwise product) with two scopes per list, dotted scope names and the password origin.
 const (
 	dimPresenter = iota
 	dimGrantType
@@ -106,11 +107,13 @@ const (
 func ZZ_C05_refresh_step() {
 	zz.SetOption("clock.fixed", 1) // C05 does not quantify over time
 	b := getBounds()
-	free := func(dim int) bool { return true }
-	if !zz.Thorough() {
-		focus := zz.Choice("focus", nDims)
-		free = func(dim int) bool { return dim == focus }
+	// quick: one free dimension (sum); thorough: larger bounds and every PAIR of dimensions free (pairwise product)
+	f1 := zz.Choice("focus", nDims)
+	f2 := f1
+	if zz.Thorough() {
+		f2 = f1 + zz.Choice("focus2", nDims-f1) // f2 >= f1; equal = single dimension
 	}
+	free := func(dim int) bool { return dim == f1 || dim == f2 }
 	si := zz.Choice("strategy", 3)
 	strat := strategies[si]
 	audMode := 0 // 0 default (URL prefix), 1 exact strings
